@@ -353,6 +353,7 @@ func RunEngine(cfg Config, name string) int {
 		return 1
 	}
 	res := e.result(prog, cfg.Tier)
+	kf, _ := oblig.LoadFindings(filepath.Join(cfg.Verif, "known_findings.json"))
 	cnt := map[string][3]int{}
 	obls := append([]oblig.Obligation(nil), res.Obls...)
 	oblig.SortObls(obls)
@@ -367,6 +368,18 @@ func RunEngine(cfg Config, name string) int {
 			c[2]++
 		}
 		cnt[o.Rule] = c
+		if kf != nil && o.Verdict != oblig.Discharged {
+			known := false
+			for _, f := range kf.Findings {
+				if f.Status == "known" && f.Rule == o.Rule && f.Key == o.Key {
+					known = true
+				}
+			}
+			if known {
+				fmt.Printf("%s: %s: known-finding: %s\n", o.Pos, o.Rule, o.Key)
+				continue
+			}
+		}
 		if o.Verdict != oblig.Discharged || cfg.Verbose {
 			fmt.Printf("%s: %s: %s: %s: %s\n", o.Pos, o.Rule, o.Verdict, o.Key, o.Detail)
 			if o.Verdict != oblig.Discharged {
